@@ -131,6 +131,19 @@ CLAIMED = {
                   '2^32 ms apart (otherwise the roll counter of N2kMillis64 misses a wrap; stated in millis64_gap).',
              design='6 C13', technique='Coq relational (two-run) invariant proof over executable model + metamorphic extracted-model/implementation correspondence'),
 }
+# the public-call layer (Model/ApiDefs.v): what the lifted theorems add, per property
+API_TEXT = {
+ 'C02': ' The same statements are proved over histories that also contain the application\'s public calls (Model/ApiDefs.v: senders, Restart, SetMode, run-time setters; api_rx_no_corruption, api_rx_complete_run), '
+        'with the calls that change the classification (list setters; for completeness also SetHandleOnlyKnownMessages) excluded and the unrestricted forms refuted by witnesses.',
+ 'C04': ' Every public call of the application except SetMode after initialisation (which re-addresses without announcing: api_set_mode_not_a_run) is a run of the same machine (api_produced_frames_entitled); listen-only, not-open and '
+        'settle-delay statements hold for histories with these calls.  A CANOpen() that takes time or fails is outside the model: the oracle-only family settle-blocking judges the implementation there.',
+ 'C07': ' api_node_safe extends node_safe to histories with the public calls of the application (any device index, any argument within the C types).',
+ 'C12': ' The application\'s own heartbeat calls are covered (Spec/ApiHbSpec.v): silent on nodes that are not active bus devices, the unforced call is the poll\'s heartbeat step, forced heartbeats carry sequence 255, the configured '
+        'interval and leave counter, period and offset alone while moving to the next grid point.',
+ 'C13': ' api_node_shift_run: the same for histories with the public calls of the application.',
+}
+for _k, _v in API_TEXT.items():
+    CLAIMED[_k]['text'] += _v
 def main():
     props = [json.loads(l) for l in open(os.path.join(V, 'properties.jsonl'))]
     done = [p for p in CLAIMED if os.path.exists(os.path.join(V, 'tools', 'p_%s.py' % p)) and os.path.exists(os.path.join(V, 'coq', 'Props', 'Properties_%s.v' % p)) and CLAIMED[p].get('ready', True)]
